@@ -294,7 +294,9 @@ def check_emission(fx, rep, rule, wv):
 
 def as_bytes_of(t):
     """X for `as_bytes(X)` / `deref(X)` wrappers"""
-    while t[0] == "call" and (t[1].endswith("Pod::as_bytes") or "as_bytes<" in t[1]):
+    while t[0] == "call" and (t[1].endswith("Pod::as_bytes") or "as_bytes<" in t[1]
+                              or (t[1] in ("std::slice::from_ref", "core::slice::from_ref") and len(t[2]) == 1)):
+        # (`slice::from_ref(&x)` is the one-element slice `[x]`: its bytes are x's bytes)
         t = t[2][0]
     return t
 
